@@ -12,6 +12,10 @@ import Driver.Util
     fdec  <f32|f64|i64> <pattern>        float classes used by the checks
     fromhdr <src> <dst> <e> <hex>        Dst.from_header(src, check=False): provenance of EVERY field
     fhpix <f32|f64> <ndim> <p0,..,p7>    pixdim of from_header(src) for another class of the same float width
+    pfix  <cls> <e> <glob> <l1,l2,..> <hex>   the PUBLIC hdr.check_fix(error_level=l_i) called in sequence on one object
+                                         (l_i = integer or N = None -> imageglobals.error_level = <glob>): per call
+                                         raised index / logged reports / bytes; then check_only, Klass(bytes, check=True)
+                                         and diagnose_binaryblock on the original bytes
 -/
 namespace Nb.Drv.C10
 open Nb Nb.C10
@@ -140,7 +144,40 @@ def handleChk (c : ClsSpec) (L : Layout) (e : Endian) (bs0 : List Byte) : String
     "r1=" ++ showReports true r1 ++ " bb1=" ++ toHex bb1 ++ " r2=" ++ showReports true r2 ++
       " same=" ++ b01 (bb2 == bb1) ++ " ro=" ++ showReports false ro
 
+def parseLevels? (s : String) : Option (List (Option Int)) :=
+  (s.splitOn ",").mapM (fun t => if t = "N" then some none else t.toInt?.map some)
+
+def showStep (bb1 : List Byte) (r : PubResult) : String :=
+  (match r.raised with
+   | some i => "R" ++ toString i
+   | none => "ok") ++ "/" ++ showReports true r.logged ++ "/" ++ b01 (r.bytes == bb1)
+
+def handlePfix (c : ClsSpec) (L : Layout) (e : Endian) (glob : Int) (lvls : List (Option Int)) (bs0 : List Byte) : String :=
+  match ctorBytes c L bs0 with
+  | none => "ERR:WrapStructError"
+  | some bs =>
+    let bs := serialize L e (ctorVals c L e bs)
+    if raisesBytes c L e bs then "ERR:OverflowError" else
+    let hist := runHistory c L e bs (lvls.map (fun l => effLevel l glob))
+    let bb1 := (hist.headD default).bytes
+    let last := (hist.getLastD default).bytes
+    "bb1=" ++ toHex bb1 ++ " steps=" ++ ";".intercalate (hist.map (showStep bb1)) ++
+      " ro=" ++ showReports false (checkOnlyBytes c L e last) ++
+      " ctor=" ++ (match ctorChecked c L e bs glob with
+                   | .error i => "ERR:" ++ toString i
+                   | .ok bb => "ok:" ++ b01 (bb == bb1)) ++
+      " diag=[" ++ ",".intercalate ((diagnose c L e bs).map (fun r => showMsg r.msg)) ++ "]"
+
 def handle : List String → String
+  | ["pfix", cls, e, glob, lvls, hex] =>
+      match Gen.classOf? cls, parseHex? hex, glob.toInt?, parseLevels? lvls with
+      | some c, some bs, some glob, some lvls =>
+          if lvls.isEmpty then "bad-op" else
+          match Gen.layoutOf? c.layout, parseEArg e with
+          | some L, .code e => handlePfix c L e glob lvls bs
+          | some _, .keyError => "ERR:KeyError"
+          | _, _ => "bad-op"
+      | _, _, _, _ => "bad-op"
   | ["hdr", cls, native, e, to, hex] =>
       match Gen.classOf? cls, parseEndian? native, parseHex? hex with
       | some c, some native, some bs =>
